@@ -121,6 +121,7 @@ func genC05(c *Ctx) *Plan {
 		}
 	}
 	sort.SliceStable(p.Ops, func(i, j int) bool { return p.Ops[i].At < p.Ops[j].At })
+	p.P["freeze_us"] = int64(r.pick(0, 0, 200, 5000, 50000))
 	p.YieldOff = genYieldOff(r)
 	return p
 }
@@ -143,6 +144,14 @@ func execC05(c *Ctx) {
 	em := newEventMon()
 	cx := startClusterRun(c, em, &healthMon{}, newMonoMon(ms(p.Cfg.GossipToDeadMs)), newSelfMon())
 	tf := time.Duration(p.param("tf", int64(20*time.Second)))
+	if fz := p.param("freeze_us", 0); fz > 0 {
+		// slow / descheduled goroutines during the faulty phase: message handlers, stream
+		// handlers and timer callbacks may sit parked while virtual time passes
+		c.Sim.freezeSites = map[string]bool{"alive": true, "suspect": true, "dead": true, "conn": true, "handoff": true, "susptimeout2": true, "leave2": true, "update": true}
+		c.Sim.freezeProb = 0.08
+		c.Sim.freezeMax = time.Duration(fz) * time.Microsecond
+		c.Sim.freezeUntil = tf
+	}
 	c.Sim.RunUntil(tf+time.Millisecond, func() bool { return c.Failed() })
 	if c.Failed() {
 		cx.finish()
@@ -315,6 +324,7 @@ func execC05(c *Ctx) {
 	if p.param("renamed", 0) == 1 {
 		c.Reach("restart_under_new_name")
 	}
+	c.Res.Faults["goroutine_descheduled"] += c.Sim.frozen
 	c.Res.Nontrivial = pre && len(live) >= 2 && (len(cx.cl.net.faults) > 0)
 	c.Stat("budget_ms", int64(w/time.Millisecond))
 	c.Stat("live", int64(len(live)))
